@@ -25,7 +25,8 @@ def planner_variables(ev, rd, tier, seed):
 def run(tier, seed):
     return netcheck.run_net(PROP, tier, seed,
         profiles=[('ov', 120, 1200, 30)],
-        rule='(1) seeded histories on ov_theory: 2-4 object variables with domains of 1-3 values out of a pool of 4 (singleton, '
+        rule='(0) every transition of the state graph of the implementation-shaped model OvImpl (ov_theory::new_var with its value literals and the exactly-one built by new_exct_one, variables derived from the literals of another one, new_eq as written - ordered cache key, intersection, pruning and pairwise-equality clauses -, unit clauses that prune values, propagation; on top of the model of the sat core\'s constructors; spec/OvGen.tla prints one test per transition) replayed on the real ov_theory: answer, number and value of the propositional variables and the values every object variable allows compared with the model after every call; deviating executions are decided by NetworkTrace; '
+             '(1) seeded histories on ov_theory: 2-4 object variables with domains of 1-3 values out of a pool of 4 (singleton, '
              'nested, overlapping, disjoint; with and without the built-in exactly-one; variables derived from another one that '
              'share its literals), equality literals between any two of them (both orders, repeated), clauses '
              'and assume/pop/next histories over the value literals; in every model exactly one value literal is true, the '
@@ -34,6 +35,11 @@ def run(tier, seed):
              'built-in exactly-one): the object programs of ObjGen solved by the real planner, every declared variable ends with '
              'exactly one value, one that the reference semantics allows, and the program is solvable iff some instance fits; '
              'distinct_nontrivial = distinct executions with an object variable',
+        models=[('MC_OvImpl', 'MC_OvImpl_A.cfg', 'MC_OvImpl_A.cfg',
+                 'implementation-shaped model of ov_theory over the model of the sat core constructors: ExactlyOne, EqualityMeaning, ValueSound, NeverEmpty, OConservative over every history of <= 2 variables (overlapping / nested / disjoint / singleton domains, derived variables), one equality request and one pruning', None),
+                ('MC_OvImpl', 'MC_OvImpl_B.cfg', 'MC_OvImpl_B.cfg',
+                 'the same model: domains of three values, two prunings (down to a single value) before / after the equality request', None)],
+        ovimpl=(['OvGen_A.cfg', 'OvGen_B.cfg'], ['OvGen_A.cfg', 'OvGen_B.cfg']),
         assumptions=['at most 11 propositional variables per execution (model enumeration)'],
         post=planner_variables)
 
